@@ -100,7 +100,12 @@ type SessionStore interface {
 	// options can be used to fine-tune the storage of the item.
 	Put(key string, value interface{}, options ...SessionOption) error
 	// GetAndDelete combines Get and Delete as a convenience for burning nonce entries.
+	// It is atomic with respect to other GetAndDelete calls: of concurrent calls for the same key, at most one returns the value.
 	GetAndDelete(key string, target interface{}) error
+	// PutIfAbsent stores the given value for the given key, unless an entry for the key already exists.
+	// It returns true if the value was stored, false if the key was already present.
+	// It is atomic with respect to other PutIfAbsent calls, so it can be used to accept one-time values (nonces) only once.
+	PutIfAbsent(key string, value interface{}, options ...SessionOption) (bool, error)
 }
 
 // TransactionKey is the key used to store the SQL transaction in the context.
